@@ -438,6 +438,8 @@ Definition run_fields2 (f : list bytes) : bytes * bool :=
   else if bytes_eqb op (s2b "pdec8a") || bytes_eqb op (s2b "pdec8b") then (r_bytes (parse_decimal_be8 (unhx (a 1%nat))), true)
   else if bytes_eqb op (s2b "lpad") then
     let w := parse_Z (a 2%nat) in (r_bytes (left_pad_hex (unhx (a 1%nat)) w), (0 <=? w)%Z && (w <=? 1048576)%Z)
+  else if bytes_eqb op (s2b "mhex") then
+    let w := parse_Z (a 2%nat) in (r_bytes (must_hex_pad_left (unhx (a 1%nat)) w), (-1000 <=? w)%Z && (w <=? 524288)%Z)
   else if bytes_eqb op (s2b "phexts") then (r_bytes (parse_hex_timestamp (unhx (a 1%nat))), true)
   else if bytes_eqb op (s2b "pchal") then (r_bytes (parse_decimal_challenge (unhx (a 1%nat))), true)
   else if bytes_eqb op (s2b "hexin") then
